@@ -1627,25 +1627,27 @@ fn part_tt(case_seed: u64, r: &mut Report) {
         return;
     }
     let true_rank = 1 + rng.below((cfg.max_rank / 2).max(1).min(4));
-    // norm classes: the historical powers of ten, and magnitude classes across the finite f32 range.
-    // The magnitude classes scale the unit-norm vector by an exact power of two (2^-100 ~ 8e-31,
-    // 2^-80 ~ 8e-25, 2^-63 ~ 1e-19, 2^63 ~ 9e18, 2^83 ~ 1e25, 2^100 ~ 1.3e30), so the scaled input is
-    // the same vector bit for bit up to the exponent and its norm stays a finite f32. The documented
-    // bound is relative, hence scale-free: the unit-norm twin is decomposed as well and a failure that
-    // only the scaled input shows gets its own signature.
-    let (scale, scale_class, pow2): (f64, &str, Option<i32>) = match rng.below(14) {
-        0 => (1e-3, "norm-1e-3", None),
-        1 => (1e3, "norm-1e3", None),
-        2 => (1e-12, "norm-1e-12", None),
-        3 => (1e12, "norm-1e12", None),
-        4 => (2f64.powi(-100), "norm-2^-100", Some(-100)),
-        5 => (2f64.powi(-80), "norm-2^-80", Some(-80)),
-        6 => (2f64.powi(-63), "norm-2^-63", Some(-63)),
-        7 => (2f64.powi(63), "norm-2^63", Some(63)),
-        8 => (2f64.powi(83), "norm-2^83", Some(83)),
-        9 => (2f64.powi(100), "norm-2^100", Some(100)),
-        _ => (1.0, "unit-norm", None),
+    // norm classes: every non-unit class scales the unit-norm vector by an exact power of two, so the
+    // scaled input is the same vector bit for bit up to the exponent and its norm stays a finite f32:
+    // moderate (2^-10 ~ 1e-3, 2^10 ~ 1e3, 2^-40 ~ 1e-12, 2^40 ~ 1e12) and across the finite f32 range
+    // (2^-100 ~ 8e-31, 2^-80 ~ 8e-25, 2^-63 ~ 1e-19, 2^63 ~ 9e18, 2^83 ~ 1e25, 2^100 ~ 1.3e30).
+    // The documented bound is relative, hence scale-free: the unit-norm twin is decomposed first and
+    // judged under the historical signatures; a failure that only the scaled input shows gets a
+    // signature of its own (small-norm / large-norm / tiny-magnitude / huge-magnitude).
+    let (scale_class, pow2): (&str, Option<i32>) = match rng.below(14) {
+        0 => ("norm-2^-10", Some(-10)),
+        1 => ("norm-2^10", Some(10)),
+        2 => ("norm-2^-40", Some(-40)),
+        3 => ("norm-2^40", Some(40)),
+        4 => ("norm-2^-100", Some(-100)),
+        5 => ("norm-2^-80", Some(-80)),
+        6 => ("norm-2^-63", Some(-63)),
+        7 => ("norm-2^63", Some(63)),
+        8 => ("norm-2^83", Some(83)),
+        9 => ("norm-2^100", Some(100)),
+        _ => ("unit-norm", None),
     };
+    let scale = pow2.map_or(1.0, |k| 2f64.powi(k));
     let mut v64 = if class <= 2 {
         // smooth signals have low TT-rank (sum of two sinusoids: rank <= 4)
         let (f1, f2, p) = (rng.f64_in(0.001, 0.5), rng.f64_in(0.001, 0.5), rng.f64_in(0.0, 3.0));
@@ -1686,8 +1688,8 @@ fn part_tt(case_seed: u64, r: &mut Report) {
         Out::Done { rel: en / vn, ranks }
     };
     let rank_note = true_rank.max(if class <= 2 { 4 } else { 0 });
-    // the input actually judged by the historical path: unit-norm twin for the magnitude classes
-    let (v, jscale, jclass): (Vec<f32>, f64, &str) = if pow2.is_some() { (v64.iter().map(|&x| x as f32).collect(), 1.0, "unit-norm") } else { (v64.iter().map(|&x| (x * scale) as f32).collect(), scale, scale_class) };
+    // judged first, under the historical signatures: the unit-norm vector itself
+    let (v, jscale, jclass): (Vec<f32>, f64, &str) = (v64.iter().map(|&x| x as f32).collect(), 1.0, "unit-norm");
     let (rel, ranks) = match run(&v) {
         Out::Panic(p) => {
             r.violation(format!("tt:panic:{}", first_line(&p)), format!("dim {} {} scale {}: {}", dim, preset, jscale, p), replay);
@@ -1721,14 +1723,19 @@ fn part_tt(case_seed: u64, r: &mut Report) {
         );
         return;
     }
-    // magnitude classes: the same vector times 2^k must meet the same relative bound
+    // scaled classes: the same vector times 2^k must meet the same relative bound
     let mut mag_rel: Option<f64> = None;
     if let Some(k) = pow2 {
         let f = 2f32.powi(k);
         let vs: Vec<f32> = v.iter().map(|&x| x * f).collect();
         // exact scaling only (an element pushed into the denormal range would lose bits)
         if vs.iter().zip(&v).all(|(&a, &b)| a.is_finite() && a / f == b) {
-            let mag = if k < 0 { "tiny-magnitude" } else { "huge-magnitude" };
+            let mag = match k {
+                i32::MIN..=-41 => "tiny-magnitude",
+                -40..=-1 => "small-norm",
+                0..=40 => "large-norm",
+                _ => "huge-magnitude",
+            };
             let ctx = format!("dim {} shape {:?} preset {} (max_rank {}, tol {}), input of TT-rank <= {} scaled by 2^{} (norm {:e}, components up to {:e}); the unit-norm twin decomposes with ranks {:?} and relative L2 error {:.5}", dim, cfg.shape, preset, cfg.max_rank, cfg.tolerance, rank_note, k, scale, vs.iter().fold(0f32, |m, x| m.max(x.abs())), ranks, rel);
             match run(&vs) {
                 Out::Panic(p) => {
